@@ -403,7 +403,7 @@ def _run(ctx, pgpy, d, tmp):
             cases.append({'content': gen_content(rng, 'ascii', 0), 'format': 'b', 'encoding': None, 'filename': 'f', 'mtime': ts(T0), 'comp': rng.randrange(4),
                           'signers': sg, 'armor': False})
     # random part
-    for _ in range(ctx.n(40, 1500)):
+    for _ in range(ctx.n(100, 1500)):
         cls = rng.choice(classes)
         case = {'content': gen_content(rng, cls, 0), 'format': rng.choice(formats), 'encoding': cls.split(':')[1] if cls.startswith('charset:') else None,
                 'filename': rng.choice(NAMES), 'mtime': rng.choice(TIMES + [rng.randrange(2**32)]), 'comp': rng.randrange(4),
@@ -435,7 +435,7 @@ def _run(ctx, pgpy, d, tmp):
     for mt in (2**32, 2**32 + 12345):
         m = pgpy.PGPMessage.new(b'abc', compression=CA.Uncompressed, format='b')
         m._message.mtime = datetime.fromtimestamp(mt, timezone.utc)
-        m._message.update_hlen()
+        outcome(m._message.update_hlen)   # a repaired LiteralData refuses here already
         o = outcome(lambda: bytes(m))
         case = {'op': 'time', 'mtime': mt}
         ctx.case('time-overflow', mt, nontrivial=False, sample={'mtime': mt, 'impl': repr(o)[:80]})
@@ -446,7 +446,7 @@ def _run(ctx, pgpy, d, tmp):
 
     # ---- 3. literal / one-pass body codecs against PGPy's packet classes and the RFC decoders
     trailing = b'\xaa\xbb\xcc'
-    for _ in range(ctx.n(150, 3000)):
+    for _ in range(ctx.n(300, 3000)):
         fmt = rng.choice([0x62, 0x74, 0x75, 0x6c, 0x31, rng.randrange(256)])
         name = ''.join(chr(rng.randrange(256)) for _ in range(rng.choice([0, 1, 8, 254, 255, rng.randrange(256)])))
         mt = rng.choice(TIMES + [rng.randrange(2**32)])
@@ -472,7 +472,7 @@ def _run(ctx, pgpy, d, tmp):
         if not ok:
             ctx.fail('literal-codec', 'LiteralData does not round-trip / touches following data', case)
     # malformed literal bodies: declared length and content disagree (model follows the slices of the code)
-    for _ in range(ctx.n(150, 3000)):
+    for _ in range(ctx.n(300, 3000)):
         blen = rng.choice([0, 1, 2, 3, 5, 6, 7, 12, rng.randrange(40)])
         body = bytes(rng.choice([0, 1, 2, 4, 6, 98, 255, rng.randrange(256)]) for _ in range(blen))
         declared = max(0, blen + rng.choice([0, 0, 0, -1, -2, 1, 3, -6]))
@@ -493,7 +493,7 @@ def _run(ctx, pgpy, d, tmp):
         ctx.case('literal-malformed', data, nontrivial=(got != 'ERR'), sample=dict(case, impl=got[:80]))
         ctx.expect_eq('literal-malformed', 'literal parse differs from model', case, got, d.call('litparse', hn(declared), hx(body + follow)))
     # one-pass bodies
-    for _ in range(ctx.n(150, 3000)):
+    for _ in range(ctx.n(300, 3000)):
         t = rng.choice(PIN_SIGTYPES + [rng.randrange(256)]); h = rng.choice([1, 2, 8, 9, 10, 11, rng.randrange(256)])
         a = rng.choice(PIN_PKALGS + [rng.randrange(256)]); kid = bytes(rng.randrange(256) for _ in range(8)); fl = rng.choice([0, 1, 1, 2, 255])
         body = bytes([3, t, h, a]) + kid + bytes([fl])
@@ -599,7 +599,7 @@ def split_packets(d, blob):
 def run_encrypt(ctx, pgpy, d, K, fast, tmp):
     from pgpy.constants import CompressionAlgorithm as CA, SymmetricKeyAlgorithm as SA, HashAlgorithm as H
     rng = ctx.rng
-    for i in range(ctx.n(10, 120)):
+    for i in range(ctx.n(16, 120)):
         n_before, n_after = rng.choice([(0, 0), (1, 0), (2, 0), (0, 1), (0, 2), (1, 1), (3, 0), (2, 2)])
         case = {'content': gen_content(rng, rng.choice(['ascii', 'binary', 'utf8-str']), 0), 'format': None, 'encoding': None, 'filename': rng.choice(NAMES[:4]),
                 'mtime': ts(T0), 'comp': rng.randrange(4), 'signers': gen_signers(rng, K, n_before, fast), 'armor': False}
@@ -701,7 +701,7 @@ def reframe(d, rng, tag, body, style):
 def run_foreign(ctx, pgpy, d, K, fast, blobs):
     rng = ctx.rng
     pubs = {}
-    todo = [cb for cb in blobs if cb[0]['comp'] == 0][:ctx.n(25, 400)]
+    todo = [cb for cb in blobs if cb[0]['comp'] == 0][:ctx.n(40, 400)]
     for case, blob in todo:
         pk = split_packets(d, blob)
         fmt, want_back, stored = expected_read_back(case)
@@ -720,12 +720,18 @@ def run_foreign(ctx, pgpy, d, K, fast, blobs):
                 out += reframe(d, rng, tag, body, st)
             wrap = rng.choice([None, None, 1, 2, 3, 0])
             wstyle = None
+            wr_inner = None
             if wrap is not None:
-                inner = out
-                wstyle = rng.choice(['new', 'partial', 'old1', 'old2', 'old4', 'old0'])
-                cbody = bytes([wrap]) + unhx(o_compress(hx(bytes([wrap])), hx(inner)))
-                if wstyle == 'old1' and len(cbody) > 255: wstyle = 'old2'
-                out = reframe(d, rng, 8, cbody, wstyle)
+                # compression wrapper(s) of another producer; import keeps the innermost algorithm (__or__ recursion)
+                algs = [wrap] + ([rng.randrange(4)] if rng.random() < 0.25 else [])
+                wstyle = []
+                for alg in algs:
+                    st = rng.choice(['new', 'partial', 'old1', 'old2', 'old4', 'old0'])
+                    cbody = bytes([alg]) + unhx(o_compress(hx(bytes([alg])), hx(out)))
+                    if st == 'old1' and len(cbody) > 255: st = 'old2'
+                    out = reframe(d, rng, 8, cbody, st)
+                    wstyle.append((alg, st))
+                wr_inner = algs
             cd = dict(_small(case), op='foreign', styles=styles, wrap=wrap, wstyle=wstyle, data=out.hex() if len(out) < 3000 else None)
             ctx.case('foreign', (styles, wrap, wstyle, hashlib.sha1(out).hexdigest()), sample={'styles': styles, 'wrap': wrap, 'wstyle': wstyle, 'head': out[:16].hex()})
             o = outcome(pgpy.PGPMessage.from_blob, out)
@@ -746,7 +752,7 @@ def run_foreign(ctx, pgpy, d, K, fast, blobs):
             want = d.call('parse', FUEL, hx(blob))
             got = d.call('parse', FUEL, hx(out))
             wr = want.split(' ', 3)[3]
-            if wrap is not None: wr = 'C:%s:[%s]' % (hn(wrap), wr)
+            for alg in (wr_inner or []): wr = 'C:%s:[%s]' % (hn(alg), wr)
             if got.split(' ', 3)[3] != wr or got[0] != '1':
                 ctx.fail('foreign', 'model parser reads its own foreign framing differently', dict(cd, got=got[:200], want=wr[:200]))
             ctx.expect_eq('foreign', 'import state of foreign encoding differs from model', cd, state_of(m2), d.call('import', FUEL, hx(out)))
@@ -780,7 +786,7 @@ def run_sequences(ctx, pgpy, d, K, fast, blobs):
     extra = [marker, mdc, userid, ops4, b'\xc9\x05hello', b'\xd2\x03\x01zz', b'\xd2\x03\x02zz', b'\xc1\x03\x02zz', b'\xc3\x03\x05zz', b'\xc2\x03\x03zz',
              b'\xfc\x02hi']
     if not pool: return
-    for _ in range(ctx.n(150, 3000)):
+    for _ in range(ctx.n(300, 3000)):
         k = rng.randrange(0, 6)
         seq = [rng.choice(pool if rng.random() < 0.7 else extra) for _ in range(k)]
         data = b''.join(seq)
@@ -815,7 +821,7 @@ def replay(ctx, case):
             from pgpy.constants import CompressionAlgorithm as CA
             m = pgpy.PGPMessage.new(b'abc', compression=CA.Uncompressed, format='b')
             m._message.mtime = datetime.fromtimestamp(case['mtime'], timezone.utc)
-            m._message.update_hlen()
+            outcome(m._message.update_hlen)
             o = outcome(lambda: bytes(m))
             if o[0] != 'ok': return False
             o2 = outcome(pgpy.PGPMessage.from_blob, o[1])
